@@ -54,6 +54,7 @@ type pair struct {
 	blackhole bool
 	dead      bool
 	upgraded  bool // the server's handshake response has been forwarded to the client
+	stalled   bool // kind "stall": the pumps stop reading
 	mu        sync.Mutex
 }
 
@@ -90,6 +91,9 @@ func (p *Proxy) Close() {
 	p.mu.Unlock()
 	p.ln.Close()
 	for _, pr := range pairs {
+		pr.mu.Lock()
+		pr.dead = true
+		pr.mu.Unlock()
 		pr.c.Close()
 		pr.s.Close()
 	}
@@ -188,6 +192,12 @@ func (pr *pair) strike(kind string) {
 	case "blackhole":
 		pr.blackhole = true
 		return
+	case "stall":
+		// a silent peer that has also stopped reading: nothing is forwarded and nothing more is taken off
+		// either socket, so the endpoints' writes run into full buffers
+		pr.blackhole = true
+		pr.stalled = true
+		return
 	case "close1000", "close1001":
 		// the server side ends the connection the polite way: a close frame (normal closure / going away)
 		// towards the client, then the TCP close
@@ -206,6 +216,23 @@ func (pr *pair) strike(kind string) {
 	pr.dead = true
 	pr.c.Close()
 	pr.s.Close()
+}
+
+// read is src.Read unless the pair is stalled, in which case it waits (without reading) until the pair dies.
+func (pr *pair) read(src net.Conn, buf []byte) (int, error) {
+	for {
+		pr.mu.Lock()
+		st, dead := pr.stalled, pr.dead
+		pr.mu.Unlock()
+		if !st {
+			break
+		}
+		if dead {
+			return 0, io.EOF
+		}
+		time.Sleep(2 * time.Millisecond)
+	}
+	return src.Read(buf)
 }
 
 func (pr *pair) isBlackhole() bool {
@@ -266,7 +293,7 @@ func (p *Proxy) pump(pr *pair, src, dst net.Conn, dir string) {
 	tmp := make([]byte, 1<<15)
 	fill := func(n int) bool { // make sure buf has at least n bytes
 		for len(buf) < n {
-			k, err := src.Read(tmp)
+			k, err := pr.read(src, tmp)
 			if k > 0 {
 				buf = append(buf, tmp[:k]...)
 			}
@@ -290,7 +317,7 @@ func (p *Proxy) pump(pr *pair, src, dst net.Conn, dir string) {
 			buf = buf[i+4:]
 			break
 		}
-		k, err := src.Read(tmp)
+		k, err := pr.read(src, tmp)
 		if k > 0 {
 			buf = append(buf, tmp[:k]...)
 		}
